@@ -443,7 +443,7 @@ def standard_run(chk, mod, extra_search=None):
                 pairs.append((c, o, t))
     try:
         bad, shown = chk.coq_eval(mod.IMPORTS, mod.CASE_TYPE, mod.CHECKER, [t for _, _, t in pairs],
-                                  show=getattr(mod, "SHOW", None))
+                                  shard=getattr(mod, "SHARD", 400), show=getattr(mod, "SHOW", None))
     except CoqEvalError as e:
         bad, shown = [], {}
         chk.l1_ok = False
@@ -518,6 +518,7 @@ class RngRecorder:
 
     def __init__(self):
         self.events = []
+        self.suspended = False
 
     def __enter__(self):
         import numpy as np
@@ -527,6 +528,8 @@ class RngRecorder:
 
         def randint(low, high=None, size=None, dtype=int):
             r = rec.orig[0](low, high, size)
+            if rec.suspended:
+                return r
             n = low if high is None else high - low
             if size is None:
                 rec.events.append(("int", int(n), int(r) - (0 if high is None else int(low))))
@@ -536,6 +539,8 @@ class RngRecorder:
 
         def choice(a, size=None, replace=True, p=None):
             r = rec.orig[1](a, size, replace, p)
+            if rec.suspended:
+                return r
             if isinstance(a, int) and size is not None and p is None:
                 rec.events.append(("choice", int(a), int(size), [int(x) for x in r]))
             else:
@@ -545,6 +550,8 @@ class RngRecorder:
         def shuffle(x):
             before = list(x)
             rec.orig[2](x)
+            if rec.suspended:
+                return
             rec.events.append(("shuffle", len(before)))
 
         np.random.randint, np.random.choice, np.random.shuffle = randint, choice, shuffle
